@@ -81,9 +81,14 @@ def sumAt (s : Nat) : List SP → Terms
   | [] => []
   | p :: ps => merge (upTo p s) (sumAt s ps)
 
+/-- `acc · p₁ · p₂ ⋯` (left to right, so that leading monomial factors are combined first) -/
+def prodFrom (acc : SP) : List SP → SP
+  | [] => acc
+  | p :: ps => prodFrom (mulSP acc p) ps
+
 def prodSP : List SP → SP
   | [] => oneSP
-  | p :: ps => mulSP p (prodSP ps)
+  | p :: ps => prodFrom p ps
 
 mutual
 /-- normal form of an expression -/
